@@ -8,7 +8,7 @@ package types
 //  - never mints more than the burned amount is worth at the ratio and decimal scales
 //      minted / 10^so <= (burned / 10^si) * ratio      (cross-multiplied, k = si - so);
 //  - at ratio 1 exact, and the dust left with the sender is below one output unit.
-//@ func LossLessSwap
+//@ func LossLessSwap(input, ratio, inputScale, outputScale)
 //@   property C10
 //@   returns burned, minted
 //@   requires input > 0
